@@ -207,7 +207,7 @@ def check_cf_interpolate(ctx):
     cls = repo.cls('convolved_fluxes.convolved_fluxes', 'ConvolvedFluxes')
     def mk():
         return Obj(cls, {'_model_names': symarr('names', (M,)), '_apertures': symarr('cap', (A,), unit=U), '_flux': symarr('flux', (M, A), unit=mJy),
-                         '_error': symarr('err', (M, A), unit=mJy), '_wavelength': scalar(sym('cw'), sym('unit:micron'))})
+                         '_error': symarr('err', (M, A), unit=sym('unit:Jy')), '_wavelength': scalar(sym('cw'), sym('unit:micron'))})
     h = H()
     I = Interp(repo, h)
     I.exact_le = True          # clamping makes requests *equal* to the table maximum: <= and < are kept apart
